@@ -13,6 +13,11 @@ import io
 from .sym import Sym, SymStr, SxUnsupported, has_sym, sx_add
 
 
+def _plain(c):
+    """a concrete str / bytes chunk (symbolic strings report `str` as their class, so test the real type)"""
+    return type(c) in (str, bytes) or (isinstance(c, (str, bytes)) and not isinstance(c, Sym))
+
+
 class Crash(BaseException):
     """The process dies here."""
 
@@ -72,7 +77,7 @@ class FileNode:
     def size(self):
         n = 0
         for c in self.chunks:
-            if isinstance(c, (str, bytes)):
+            if _plain(c):
                 n += len(c)
             else:
                 n += 1
@@ -175,7 +180,7 @@ class FS:
         out = {}
         for k, v in self.listing().items():
             out['/'.join(map(str, k))] = v if v == 'dir' else tuple(
-                c if isinstance(c, (str, bytes)) else ('opaque', id(c.obj), c.torn) for c in v)
+                c if _plain(c) else ('opaque', id(c.obj), c.torn) for c in v)
         return out
 
 
@@ -467,9 +472,9 @@ class MHandle:
                 raise FileNotFoundError(self.name)
             self.node = n
             self.chunks = list(n.chunks)
-            if all(isinstance(c, str) for c in self.chunks):
+            if all(_plain(c) and type(c) is not bytes for c in self.chunks):
                 self.r = io.StringIO(''.join(self.chunks))
-            elif all(isinstance(c, bytes) for c in self.chunks):
+            elif all(type(c) is bytes for c in self.chunks):
                 self.r = io.BytesIO(b''.join(self.chunks))
 
     # ---- writing
@@ -480,7 +485,7 @@ class MHandle:
             self.buf += s.parts
         else:
             self.buf.append(s)
-        return len(s) if isinstance(s, (str, bytes)) else 1
+        return len(s) if _plain(s) else 1
 
     def _publish(self, chunks):
         n = self.node
@@ -489,10 +494,10 @@ class MHandle:
             n.chunks.append(('\x00' if not self.binary else b'\x00') * (self.offset - cur))
         elif self.offset < cur:
             # overwrite in the middle: only needed for plain str/bytes content
-            if all(isinstance(c, (str, bytes)) for c in n.chunks):
+            if all(_plain(c) for c in n.chunks):
                 whole = ('' if not self.binary else b'').join(n.chunks)
                 n.chunks = [whole[:self.offset]]
-                tail_from = self.offset + sum(len(c) if isinstance(c, (str, bytes)) else 1 for c in chunks)
+                tail_from = self.offset + sum(len(c) if _plain(c) else 1 for c in chunks)
                 tail = whole[tail_from:]
                 n.chunks += list(chunks)
                 if tail:
@@ -500,7 +505,7 @@ class MHandle:
                 self.offset = tail_from
                 return
         n.chunks += list(chunks)
-        self.offset += sum(len(c) if isinstance(c, (str, bytes)) else 1 for c in chunks)
+        self.offset += sum(len(c) if _plain(c) else 1 for c in chunks)
 
     def flush(self):
         if self.closed or not self.writing or not self.buf:
@@ -588,7 +593,7 @@ class MHandle:
         # split the chunk list into lines at '\n' inside str chunks
         lines = [[]]
         for c in self.chunks:
-            if isinstance(c, str):
+            if _plain(c):
                 parts = c.split('\n')
                 for i, p in enumerate(parts):
                     if i:
@@ -612,8 +617,11 @@ class Shutil:
     def _p(self, p):
         if isinstance(p, MPath):
             return p
+        if isinstance(p, SymStr):
+            parts = [x for x in p.split('/') if not (type(x) is str and x == '')]
+            return MPath(self.fs, tuple(parts))
         if isinstance(p, Sym):
-            raise SxUnsupported('shutil with a symbolic path string; pass the MPath')
+            raise SxUnsupported('shutil with a symbolic non-string path')
         return self.fs.path(str(p))
 
     def rmtree(self, p, ignore_errors=False):
